@@ -728,6 +728,27 @@ static void run_strings() {
                 ok = ok && std::string(std::string_view(e)) == v2;
                 e = v1.c_str();
                 ok = ok && std::string(std::string_view(e)) == v1;
+                {
+                    // assignments whose source is the (uniquely owned) target itself or a view into its
+                    // own storage: std::string guarantees all of these
+                    resolvo::String u(v1);
+                    {
+                        resolvo::String &u2 = u;
+                        u = u2;
+                    }
+                    ok = ok && std::string(std::string_view(u)) == v1;
+                    resolvo::String w(v2);
+                    std::string_view tail = std::string_view(w);
+                    // drop the first character (all of its UTF-8 bytes: the input must stay valid UTF-8)
+                    size_t cut = tail.empty() ? 0 : 1;
+                    while (cut < tail.size() && (static_cast<unsigned char>(tail[cut]) & 0xC0) == 0x80) ++cut;
+                    tail.remove_prefix(cut);
+                    w = tail;
+                    ok = ok && std::string(std::string_view(w)) == v2.substr(cut);
+                    resolvo::String x(v1);
+                    x = x.data();
+                    ok = ok && std::string(std::string_view(x)) == v1;
+                }
                 resolvo::Vector<resolvo::String> vec{a, b};
                 vec.push_back(e);
                 resolvo::Vector<resolvo::String> vec2 = vec;
